@@ -1,10 +1,16 @@
 CHECK = {
         "obligations": ["C02.c02_reassembly", "C02.c02_prefix_always", "C02.gen_fast", "C02.gen_stale", "C02.gen_loop",
-                        "C02.gen_structure", "C02.write_sim", "C02.drain_sim", "C02.run_sim"],
-        "scenarios": ["C02"],
-        "reset_ops": ["sb.new"],
+                        "C02.gen_structure", "C02.write_sim", "C02.drain_sim", "C02.run_sim",
+                        "C02Heap.gen_structure", "C02Heap.gen_less", "C02Heap.gen_index", "C02Heap.gen_branches",
+                        "C02Heap.c02_heap_invariant", "C02Heap.c02_heap_root_min", "C02Heap.c02_heap_pop_min", "C02Heap.c02_heap_push_perm",
+                        "C02Heap.c02_heap_fuel", "C02Heap.c02_heap_bridge_partial", "C02Heap.c02_heap_duplicate_wedges_witness", "C02Heap.c02_heap_duplicate_agrees_witness"],
+        "lean_module": "CloakModel.Props.C02All",
+        "scenarios": ["C02", "C02heap"],
+        "reset_ops": ["sb.new", "hp.new", "hp.sbnew"],
         "rule": "every arrival order of n<=6 (quick) / n<=8 (thorough) frames x every closing position, reads interleaved from the seed, "
                 "bases 0 / near 2^32 / above 2^63; random permutations up to 200 (2000) frames incl. just below 2^64; malformed duplicate/stale stream. "
-                "non-trivial = arrival order differs from the identity; distinct by (order, closing position)",
-        "assumptions": ["container/heap behaves as a priority queue", "recvM serialises Write/Close"],
+                "non-trivial = arrival order differs from the identity; distinct by (order, closing position). "
+                "C02heap: seeded heap.Push/heap.Pop scripts on the real sorterHeap (tiny key ranges with duplicates, asc/desc/random/equal/sawtooth runs, keys near 2^64, "
+                "up to ~2000 elements), whole array layout compared after every op; streamBuffer.Write scripts with the heap layout read after each write; duplicate-frame stream",
+        "assumptions": ["container/heap is modelled from its GOROOT source (Model/GoHeap) and proved a priority queue (Props/C02Heap); the bridge from the array heap to the sorted list of Props/C02 is stated, not proved", "recvM serialises Write/Close"],
     }
